@@ -61,8 +61,21 @@ func (r *runLog) f(ctx context.Context) {
 
 // stopRace: kinds of registrations racing with StopAndWait (and optionally the parent's cancel).
 func stopRace(kinds []string, parentCancel bool, mode int) Scenario {
-	return Scenario{Name: fmt.Sprintf("stop/%v/parentCancel=%v/timerMode=%d", kinds, parentCancel, mode), TimerMode: mode, Body: func() {
+	return stopRaceX(kinds, parentCancel, false, mode)
+}
+
+// parentDeadline: the context given to NewGroup ends by a deadline 2 ms away (before or after the
+// stop, which comes at 0 or 3 ms).
+func stopRaceX(kinds []string, parentCancel, parentDeadline bool, mode int) Scenario {
+	name := fmt.Sprintf("stop/%v/parentCancel=%v/timerMode=%d", kinds, parentCancel, mode)
+	if parentDeadline {
+		name = fmt.Sprintf("stop/%v/parentDeadline=2ms/timerMode=%d", kinds, mode)
+	}
+	return Scenario{Name: name, TimerMode: mode, Body: func() {
 		parent, cancel := context.WithCancel(context.Background())
+		if parentDeadline {
+			parent, cancel = context.WithTimeout(context.Background(), 2*ms)
+		}
 		defer cancel()
 		g := xsync.NewGroup(parent)
 		seq := 0
@@ -100,7 +113,12 @@ func stopRace(kinds []string, parentCancel bool, mode int) Scenario {
 				}
 			}
 		})
-		// nothing starts later, however long we wait
+		// nothing starts later, however long we wait: neither what raced with the stop nor what is
+		// registered after it
+		late := &runLog{name: "Do#after-stop", seq: &seq, stopped: &stopped}
+		g.Do(late.f)
+		lateTr := &runLog{name: "Trigger#after-stop", seq: &seq, stopped: &stopped}
+		g.Trigger(lateTr.f)()
 		hx.Sleep(10 * ms)
 		hx.Quiesce()
 		if live := hx.Live(); len(live) > 0 {
@@ -227,6 +245,8 @@ func All() []Scenario {
 		stopRace([]string{"Do", "Trigger"}, true, 0),
 		stopRace([]string{"Periodic"}, true, 1),
 		stopRace([]string{"PeriodicOrTrigger"}, false, 1),
+		stopRaceX([]string{"Do"}, false, true, 0),
+		stopRaceX([]string{"Trigger", "Periodic"}, false, true, 1),
 		triggers("Trigger", []int{1}, 0, 0),
 		triggers("Trigger", []int{2}, 0, 0),
 		triggers("Trigger", []int{1, 1}, 0, 0),
